@@ -163,6 +163,10 @@ class FixedCompanionMass(pm.Normal):
         if hasattr(P, UNIT_ATTR_NAME):
             P0 = P0.to(getattr(P, UNIT_ATTR_NAME))
 
+        # an eccentricity prior declared in another dimensionless unit (per cent)
+        if hasattr(e, UNIT_ATTR_NAME):
+            e = e * getattr(e, UNIT_ATTR_NAME).to(u.one)
+
         sigma = pt.clip(
             sigma_K0.value * (P / P0.value) ** (-1 / 3) / np.sqrt(1 - e**2),
             0.0,
